@@ -135,6 +135,20 @@ func generate(w *mon.W) {
 			t = gen.Ty(rng.Intn(3))
 		}
 		c.X = g.Gen(t, 1+rng.Intn(5))
+		if i%13 == 5 {
+			// `project name` where name is a parameter or let (or a plain column)
+			var names []string
+			for n := range ty {
+				names = append(names, n)
+			}
+			sort.Strings(names)
+			if len(names) > 0 && rng.Intn(4) != 0 {
+				c.X = Name(names[rng.Intn(len(names))])
+			} else {
+				c.X = Name("ia")
+			}
+			c.Pos = "project-name"
+		}
 		if c.Pos == "join-on" {
 			bn := map[string]bool{}
 			for k := range ty {
@@ -310,7 +324,7 @@ func Check(c *Case, r *mon.R) {
 	// the caller's map is not modified
 	r.Count("rows_evaluated", int64(len(rows)))
 	r.SetAdd("positions", c.Pos)
-	if usesBound(c.X, boundNames) && CountOps(c.X) >= 2 {
+	if usesBound(c.X, boundNames) && (CountOps(c.X) >= 2 || c.Pos == "project-name") {
 		r.Nontrivial()
 		if len(src) < 120 {
 			r.Sample(map[string]any{"pql": src, "params": params, "sql": sql})
